@@ -162,11 +162,10 @@ def op_text(op):
     if o == "copy":
         return "COPY %s %d %s\nEND\n" % (op["kind"], op["src"], op["spec"])
     if o == "delete":
-        if op["what"] == "all":
-            return "DELETE\n -all\nEND\n"
-        if op["what"] == "cells":
-            return "DELETE\n -cells %s\nEND\n" % op["list"]
-        return "DELETE\n -%s %s\nEND\n" % (DELOPT[op["what"]], op["list"])
+        def line(what, lst):
+            return " -all\n" if what == "all" else " -cells %s\n" % lst if what == "cells" else " -%s %s\n" % (DELOPT[what], lst)
+        # "more": further option lines of the same DELETE block (the block removes the union of what its lines name)
+        return "DELETE\n" + line(op["what"], op["list"]) + "".join(line(w, l) for w, l in op.get("more", [])) + "END\n"
     if o == "modify":
         return modify_text(op["kind"], op["n"], tuple(op["path"]), op["value"]) + "END\n"
     if o == "mix":
@@ -190,7 +189,7 @@ def op_name(op):
     if o == "copy":
         return "copy %s %d->%s" % (op["kind"], op["src"], op["spec"])
     if o == "delete":
-        return "delete %s %s" % (op["what"], op.get("list", ""))
+        return "delete %s %s" % (op["what"], op.get("list", "")) + "".join(" + %s %s" % (w, l) for w, l in op.get("more", []))
     if o == "modify":
         return "modify %s %d %s=%s" % (op["kind"], op["n"], "/".join(op["path"]), op["value"])
     if o == "mix":
@@ -368,15 +367,17 @@ def model_apply(store, op):
                 touched.add((kind, n))
         keys |= touched
     elif o == "delete":
-        if op["what"] == "all":
-            gone = set(keys)
-        else:
-            kinds = KIND_NAMES if op["what"] == "cells" else [op["what"]]
-            if op["list"].strip() == "":
-                gone = {k for k in keys if k[0] in kinds}
+        gone = set()
+        for what, lst in [(op["what"], op["list"])] + [tuple(x) for x in op.get("more", [])]:
+            if what == "all":
+                gone |= set(keys)
             else:
-                ns = set(numbers(op["list"]))
-                gone = {k for k in keys if k[0] in kinds and k[1] in ns}
+                kinds = KIND_NAMES if what == "cells" else [what]
+                if lst.strip() == "":
+                    gone |= {k for k in keys if k[0] in kinds}
+                else:
+                    ns = set(numbers(lst))
+                    gone |= {k for k in keys if k[0] in kinds and k[1] in ns}
         keys -= gone
         touched |= gone
     elif o == "modify":
